@@ -11,7 +11,7 @@ shutil.copy(os.path.join(sd, '_seed', 'patch%s.diff' % n), os.path.join(dst, 'pa
 shutil.copy(os.path.join(sd, '_seed', 'demo%s.py' % n), os.path.join(dst, 'demo.py'))
 caught = [c for c in ev['checks'] if c['exit'] == 1]
 meta = {
-    'property': prop, 'source': 'independent sub-agent given only the property text and a scratch worktree' + {'': '', 'R2': ' (second round: asked for rare trigger conjunctions)', 'r3': ' (third round: asked for value-dependent triggers, rarely used parameters, reused objects, error paths)', 'r4': ' (fourth round: as the third, on the properties the third did not cover)', 'r7': ' (seventh round: asked for unusual constructor arguments, edge values, the delays, transport-specific methods, pxssh and REPLWrapper beyond the main path, ANSI combinations)', 'r6': ' (sixth round: asked for attributes changed between calls, third and later uses, docstring promises, differences between transports, arguments helpers forward, look-alike text, exit paths)', 'r5': ' (fifth round: asked for feature interactions, what callbacks and filters observe, end-of-stream flavours, unit and type slips, code after caught exceptions, rarely combined methods)'}.get(os.environ.get('SEED_SUFFIX', ''), ' (later round)'),
+    'property': prop, 'source': 'independent sub-agent given only the property text and a scratch worktree' + {'': '', 'R2': ' (second round: asked for rare trigger conjunctions)', 'r3': ' (third round: asked for value-dependent triggers, rarely used parameters, reused objects, error paths)', 'r4': ' (fourth round: as the third, on the properties the third did not cover)', 'r8': ' (eighth round: given one line per earlier seeded change and asked for something different in kind)', 'r7': ' (seventh round: asked for unusual constructor arguments, edge values, the delays, transport-specific methods, pxssh and REPLWrapper beyond the main path, ANSI combinations)', 'r6': ' (sixth round: asked for attributes changed between calls, third and later uses, docstring promises, differences between transports, arguments helpers forward, look-alike text, exit paths)', 'r5': ' (fifth round: asked for feature interactions, what callbacks and filters observe, end-of-stream flavours, unit and type slips, code after caught exceptions, rarely combined methods)'}.get(os.environ.get('SEED_SUFFIX', ''), ' (later round)'),
     'what_it_changes': what, 'needs_to_manifest': needs,
     'confirmed': {
         'demo_exit_without_change': ev['demo_clean_exit'], 'demo_exit_with_change': ev['demo_patched_exit'],
